@@ -19,7 +19,11 @@ class Mod(tokcursor.CursorMod):
         self.ident_atoms = ident_atoms
         self.lexed = []
 
+    tokens = None
+
     def token_text(self, k, role, peek=False):
+        if self.tokens is not None and isinstance(role, int) and role < len(self.tokens):
+            return self.tokens[role][1]
         if k in self.lit_text:
             return ("str", self.lit_text[k])
         if self.ident_atoms and k == "IDENT":
@@ -32,7 +36,7 @@ class Mod(tokcursor.CursorMod):
         r = tokcursor.CursorMod.intrinsic(self, I, callee, args, st, n)
         if r is None:
             return None
-        if self.lit_text or self.ident_atoms:
+        if self.lit_text or self.ident_atoms or self.tokens is not None:
             # replace opaque token texts by literal / atom texts
             out = []
             for ctl, v, s in r:
